@@ -59,8 +59,12 @@ Proof.
     unfold parent_node in Hp. rewrite Hp in Hb4. apply andb_prop in Hb4. destruct Hb4 as [H1 H2].
     split; [apply in_table_valid; exact H1|apply N.ltb_lt; exact H2].
   - intros p c Vp Hc. specialize (Hrow p Vp). unfold row_wf_b in Hrow. andbs Hrow.
-    rewrite forallb_forall in Hb3. specialize (Hb3 c Hc). unfold opt_eqb in Hb3.
-    destruct (parent_node doc c) as [q|]; [|discriminate]. apply N.eqb_eq in Hb3. subst. reflexivity.
+    rewrite forallb_forall in Hb3. specialize (Hb3 c Hc). apply orb_prop in Hb3. destruct Hb3 as [Hb3|Hb3].
+    + left. unfold opt_eqb in Hb3.
+      destruct (parent_node doc c) as [q|]; [|discriminate]. apply N.eqb_eq in Hb3. subst. reflexivity.
+    + right. apply andb_prop in Hb3. destruct Hb3 as [H1 H2]. unfold is_none in *.
+      destruct (next_sibling doc c); [discriminate|]. destruct (previous_sibling doc c); [discriminate|].
+      split; reflexivity.
   - intros p Vp. specialize (Hrow p Vp). unfold row_wf_b in Hrow. andbs Hrow.
     apply nodup_b_sound. exact Hb2.
   - intros i Vi. specialize (Hrow i Vi). unfold row_wf_b in Hrow. andbs Hrow.
